@@ -426,4 +426,20 @@ theorem fitBucket_borrow {ρ τ ω} [BEq τ] [LawfulBEq τ] (i : Nat) (X : List 
       simp only [setTrue, List.foldl_nil]
       exact ⟨trivial, by simp, by simp, by simp, by simp, hfull (by omega)⟩
 
+/-- `transform_bins` (tree branch) with the `mapping_` built at training time: the bucket id of each row's
+leaf, -1 for a leaf without model -/
+theorem transformBinsTree_zipIdx {κ} [BEq κ] [LawfulBEq κ] (leaves mapped keys : List κ)
+    (hsub : ∀ k ∈ mapped, k ∈ leaves) :
+    transformBinsTree leaves mapped.zipIdx keys = keys.map (bucketId mapped) := by
+  rw [transformBinsTree_closed]
+  apply List.map_congr_left
+  intro k _
+  rw [dictGet_zipIdx]
+  by_cases h : k ∈ leaves
+  · have hc : leaves.contains k = true := by simpa using h
+    simp only [hc, if_true]
+  · have hl : leaves.contains k = false := by simpa using h
+    have hm : mapped.contains k = false := by simpa using (fun hm => h (hsub k hm))
+    simp only [hl, Bool.false_eq_true, if_false, bucketId, hm]
+
 end MlVerif.Piecewise
